@@ -45,7 +45,7 @@ ASSUMPTIONS = [
 REQUIRED = {"all": ["figures", "saved_files", "getfig_returns", "phase_markers_checked", "uversky_markers_checked",
                     "multi_marker_figures", "labels_checked", "label_lists_with_some_empty_entries", "limits_below_one", "region_points_checked",
                     "linear_bar_figures", "long_linear_plots", "net_negative_uversky_saves", "complexity_bar_figures", "numpy_coordinate_arguments", "coincident_markers", "near_threshold_large_N_cases", "figures_after_unclosed_save", "tiny_linear_plots", "homopolymer_figures", "homopolymer_corner_figures", "all_arguments_given_positionally", "label_lists_with_repeated_names", "complexity_plots_with_another_word_size",
-                    "unlabelled_plot_after_a_labelled_one_on_the_same_object", "linear_plots_of_objects_with_phosphosites"]}
+                    "unlabelled_plot_after_a_labelled_one_on_the_same_object", "linear_plots_of_objects_with_phosphosites", "limits_a_hair_above_the_marker"]}
 NFIG = {"quick": 640, "thorough": 4000}
 NMAX = {"quick": 40, "thorough": 90}
 LIMS = [1, 1, 0.5, 0.8, 2, 0.35, 0.3, 0.1, 0.395, 0.995, 0.299, 1.25, 0.999, 0.55]
@@ -232,7 +232,8 @@ def rand_args(rng, multi=None):
     label = None
     if rng.random() < 0.6:
         if multi is None:
-            label = rng.choice(["x", "my protein", "a-syn", "P1 (wt)", "\u03b1-synuclein \u0394NAC", "A\u03b242", "prot\u00e9ine"])
+            label = rng.choice(["x", "my protein", "a-syn", "P1 (wt)", "\u03b1-synuclein \u0394NAC", "A\u03b242", "prot\u00e9ine",
+                                "construct 17 of the second library, C-terminal truncation at residue 140, His-tag removed, batch 2021-03 (label longer than the axis)"])
         else:
             label = ["s%d" % i for i in range(multi)]
             if rng.random() < 0.3:
@@ -373,6 +374,13 @@ def judge_figure(case, rep, S):
             show, savef, kind = o.show_uverskyPlot, o.save_uverskyPlot, "uversky"
             if save and f.get_NCPR() < 0:
                 rep.cnt("net_negative_uversky_saves")
+        if label and rng.random() < 0.25:
+            # an axis limit a hair above the marker's coordinate: the limit is what was asked for, label or not
+            ax_ = rng.choice(["xLim", "yLim"])
+            c_ = coords[0][0] if ax_ == "xLim" else coords[0][1]
+            if c_ > 0.02:
+                kw[ax_] = round(c_ + rng.choice([0.005, 0.001, 0.009]), 6)
+                rep.cnt("limits_a_hair_above_the_marker")
         positional = rng.random() < 0.25
         if positional:
             rep.cnt("all_arguments_given_positionally")
